@@ -27,6 +27,8 @@ Record case := {
   i_addr : bytes; i_type : N; i_staked : bool;   (* i_staked: answer of the responder's registry *)
   r_addr : bytes; r_type : N; r_staked : bool;   (* r_staked: answer of the initiator's registry *)
   r_ks_ok : bool;            (* responder's GetAddress reports the address of its own key *)
+  conn_close_other : bool;   (* class 0: while the responder was held, another connection made
+                                under the initiator's peer id was closed at the responder *)
   (* observation *)
   connect_ok : bool;
   ret_addr : bytes; ret_type : N;   (* the peer Connect returned *)
@@ -78,13 +80,13 @@ Definition explains (c : case) (sched : list who) : bool :=
 
 Definition candidates (c : case) : list (list who) :=
   let n := N.to_nat (nstreams c) in
-  if klass c =? 0 then [sched_open_before_release n]
+  if klass c =? 0 then [sched_open_before_release_env (conn_close_other c) n]
   else if klass c =? 1 then [sched_open_after_release n]
   else [sched_open_before_release n; sched_open_mid n; sched_open_after_release n].
 
 Definition early_agrees (c : case) : bool :=
   if klass c =? 0 then
-    let w := run deployed (cfg_of c) (sched_before (N.to_nat (nstreams c))) in
+    let w := run deployed (cfg_of c) (sched_before_env (conn_close_other c) (N.to_nat (nstreams c))) in
     (N.of_nat (length (filter finished (wr w))) =? early c) &&
     Bool.eqb (match registered w with Some _ => true | None => false end) (reg_at_gate c)
   else (early c =? 0) && negb (reg_at_gate c).
